@@ -614,7 +614,21 @@ func (w *Worktree) addOrUpdateFileToIndex(idx *index.Index, filename string, h p
 		return w.doAddFileToIndex(idx, filename, h)
 	}
 
-	return w.doUpdateFileToIndex(e, filename, h)
+	// The entry may be shared with the storage's cached copy of the index:
+	// update a copy and swap it in, so a failure before SetIndex leaves that
+	// copy intact.
+	updated := *e
+	if err := w.doUpdateFileToIndex(&updated, filename, h); err != nil {
+		return err
+	}
+	for i := range idx.Entries {
+		if idx.Entries[i] == e {
+			idx.Entries[i] = &updated
+			break
+		}
+	}
+
+	return nil
 }
 
 func (w *Worktree) doAddFileToIndex(idx *index.Index, filename string, h plumbing.Hash) error {
